@@ -280,6 +280,58 @@ def cursor_descending_from_len(ctx, body, t, coll):
     return True
 
 
+def cursor_counts_elements(ctx, body, t):
+    """t is a loop-carried cursor that starts at the lower end of the slice its loop iterates over and goes up by one at most once per element
+    taken: (collection, upper) with t <= upper, where upper is LEN (the collection's length) or the slice's upper bound; else None"""
+    t0 = strip_refs(t)
+    if not (isinstance(t0, tuple) and t0 and t0[0] == "havoc" and len(t0) > 3):
+        return None
+    l, h, init = t0[1], t0[2], t0[3]
+    try:
+        blk = body.blocks[h]["term"]
+    except (KeyError, IndexError, TypeError):
+        blk = None
+    if not (blk and blk["k"] == "call" and blk["func"]["path"].endswith("::next") and "slice::Iter" in (blk["func"].get("full") or "")):
+        return None
+    paths = ctx.paths(body.key) or []
+    backs = [q for q in paths if q.end[0] == "back" and q.end[1] == h]
+    if not backs:
+        return None
+    src = None
+    for q in backs:
+        v = q.env.get(l)
+        if not ((isinstance(v, tuple) and v[0] == "havoc" and v[1] == l) or
+                (isinstance(v, tuple) and v[0] == "binop" and v[1] == "Add" and isinstance(v[2], tuple) and v[2][0] == "havoc" and v[2][1] == l and const_int(v[3]) == 1)):
+            return None
+        nx = [e for e in q.events if e.kind == "call" and e.bb == h]
+        if len(nx) != 1:
+            return None
+        it = nx[0].args[0]
+        while isinstance(it, tuple) and it and it[0] in ("ref", "refmut"):
+            it = it[1]
+        if not (isinstance(it, tuple) and it[0] == "loc" and len(it) > 2 and isinstance(it[2], tuple) and it[2][0] == "havoc" and it[2][2] == h and len(it[2]) > 3):
+            return None
+        s0 = strip_refs(it[2][3])
+        for _ in range(3):
+            if is_call(s0, "::into_iter", "[T]>::iter") and call_args(s0) and ("[T]" in s0[1] or "IntoIterator" in s0[1]):
+                s0 = strip_refs(call_args(s0)[0])
+        if src is not None and src != s0:
+            return None
+        src = s0
+    if src is None:
+        return None
+    if is_index_call(src):
+        cr = _lib.canon_range(call_args(src)[0], call_args(src)[1])
+        if cr is None:
+            return None
+        lo, hi = cr
+        base = _lib.coll(call_args(src)[0])
+    else:
+        lo, hi, base = ("const", "usize", 0), LEN, _lib.coll(src)
+    same_start = strip_refs(init) == strip_refs(lo) or (const_int(init) is not None and const_int(init) == const_int(lo))
+    return (base, hi) if same_start else None
+
+
 def index_below_len(p, bb, ix, coll, strict=True):
     """ix < len(coll) (strict) / ix <= len(coll) established by a comparison on the path before the site"""
     i0 = strip_refs(ix)
@@ -679,6 +731,13 @@ def discharge(ctx, body, p, ev, kind):
                     src = strip_refs(src[2] if src[0] == "loc" and len(src) > 2 else src[1])
                 return is_call(src, "[T]>::iter", "IntoIterator>::into_iter") and _lib.coll(call_args(src)[0]) == c0
             cr = _lib.canon_range(ev.args[0], ev.args[1])
+            if cr is not None and ctx is not None:
+                cc = cursor_counts_elements(ctx, body, cr[0])
+                if cc is not None and cc[0] == c0:
+                    up = cc[1]
+                    if (cr[1] == LEN and up == LEN) or (cr[1] != LEN and up != LEN and strip_refs(cr[1]) == strip_refs(up) and within(cr[1])) or \
+                            (cr[1] != LEN and up == LEN and length_of(cr[1]) is not None and length_of(cr[1]) == c0):
+                        return "G4-cursor-counting-the-elements-taken-from-the-slice-it-cuts"
             if cr is not None:
                 lo_, hi_ = cr
                 lo_ok = const_int(strip_refs(lo_)) == 0 or within(lo_) or counted(lo_)
